@@ -463,7 +463,7 @@ Section FileInv.
                    FInv (add_new_chunk cf g c) (fed ++ [c])).
     { intros g E1 E2 E3 E4 E5 Hr. apply add_new_chunk_inv; [revert H; apply FInv_ext; assumption | apply HU; left; reflexivity|].
       intro Hc. apply Hr. apply add_new_chunk_registered. exact Hc. }
-    revert Hreg. unfold step. destruct (match ans with Some a => Some a | None => local_query f (map fst (c :: rest)) end) as [[n s]|] eqn:Q.
+    revert Hreg. unfold step, step_with. destruct (match ans with Some a => Some a | None => local_query f (map fst (c :: rest)) end) as [[n s]|] eqn:Q.
     2:{ cbn [fst snd]. intro Hreg. apply Hnew; auto. }
     destruct (Hq n s eq_refl) as (Q1 & Q2 & Q3).
     assert (Hfse : forall g, f_new g = f_new f -> f_lookup g = f_lookup f -> f_info g = f_info f -> f_iref g = f_iref f ->
@@ -481,7 +481,7 @@ Section FileInv.
   Proof. unfold add_fse. destruct (continues f s); reflexivity. Qed.
   Lemma step_registered_ext bbd cf f c hs ans : exists pre, f_registered (fst (step bbd cf f c hs ans)) = pre ++ f_registered f.
   Proof.
-    unfold step. destruct (match ans with Some a => Some a | None => local_query f hs end) as [[n s]|].
+    unfold step, step_with. destruct (match ans with Some a => Some a | None => local_query f hs end) as [[n s]|].
     2:{ cbn [fst]. apply add_new_chunk_registered_ext. }
     destruct (continues _ s).
     { cbn [fst]. rewrite add_fse_registered. exists []. destruct bbd; reflexivity. }
